@@ -36,6 +36,7 @@ func main() {
 	srcOverlay := flag.String("src-overlay", "", "optional overlay json whose replacements are used as sources")
 	var add multi
 	flag.Var(&add, "add", "extra overlay entry dst=src (repeatable)")
+	flag.Var(&sortMaps, "sortmap", "range expression (source text) over a map with ordered keys to iterate in sorted key order (repeatable)")
 	flag.Parse()
 	repl := map[string]string{}
 	src := map[string]string{}
@@ -112,6 +113,8 @@ func main() {
 	}
 	fmt.Fprintf(os.Stderr, "vinstr: %d files, %d rewritten\n", nfiles, nrew)
 }
+
+var sortMaps multi
 
 type multi []string
 
@@ -266,6 +269,22 @@ func vs(name string) ast.Expr {
 
 func call(fn ast.Expr, args ...ast.Expr) *ast.CallExpr { return &ast.CallExpr{Fun: fn, Args: args} }
 
+func isSortMap(e ast.Expr) bool {
+	if len(sortMaps) == 0 {
+		return false
+	}
+	var b bytes.Buffer
+	if err := format.Node(&b, token.NewFileSet(), e); err != nil {
+		return false
+	}
+	for _, s := range sortMaps {
+		if s == b.String() {
+			return true
+		}
+	}
+	return false
+}
+
 func unparen(e ast.Expr) ast.Expr {
 	for {
 		p, ok := e.(*ast.ParenExpr)
@@ -315,6 +334,25 @@ func (r *rw) stmt(s ast.Stmt) ast.Stmt {
 		r.used = true
 		x.Chan = call(vs("S"), x.Chan)
 		return x
+	case *ast.RangeStmt:
+		if x.Tok == token.DEFINE && x.Key != nil && isSortMap(x.X) {
+			// for k, v := range m  =>  for _, k := range __vs.MapKeys(m) { v := m[k]; ... }
+			r.walk(reflect.ValueOf(x.Body))
+			r.used = true
+			m := x.X
+			if v, ok := x.Value.(*ast.Ident); ok && v.Name != "_" {
+				if k, ok := x.Key.(*ast.Ident); ok && k.Name != "_" {
+					get := define(v.Name, &ast.IndexExpr{X: m, Index: ast.NewIdent(k.Name)})
+					x.Body.List = append([]ast.Stmt{get}, x.Body.List...)
+				} else {
+					return s // unsupported shape: leave untouched
+				}
+			}
+			x.Value = x.Key
+			x.Key = ast.NewIdent("_")
+			x.X = call(vs("MapKeys"), m)
+			return x
+		}
 	}
 	r.walk(reflect.ValueOf(s))
 	return s
